@@ -94,7 +94,10 @@ impl ConnBuffer {
         loop {
             let nread = reader.read_line(&mut self.line)?;
             if nread == 0 {
-                todo!()
+                // there were only empty lines (or nothing at all)
+                return self
+                    .ctx
+                    .err(BuildFailure::InvalidConnSize("left (no header)", 0));
             }
             self.ctx.add_line(1);
             if !EMPTY_LINE.is_match(&self.line) {
@@ -154,6 +157,20 @@ impl ConnBuffer {
     }
 
     fn write_elem(&mut self, left: i16, right: i16, cost: i16) -> DicWriteResult<()> {
+        if left < 0 || left >= self.num_left {
+            return Err(BuildFailure::InvalidFieldSize {
+                actual: left as u16 as usize,
+                expected: self.num_left as usize,
+                field: "left",
+            });
+        }
+        if right < 0 || right >= self.num_right {
+            return Err(BuildFailure::InvalidFieldSize {
+                actual: right as u16 as usize,
+                expected: self.num_right as usize,
+                field: "right",
+            });
+        }
         let index = right as usize * self.num_left as usize + left as usize;
         let index = index * 2;
         let bytes = cost.to_le_bytes();
